@@ -139,7 +139,7 @@ fn dj(d: &[(Universal2DBox, Option<f32>)]) -> serde_json::Value {
 
 pub fn run(tier: Tier) -> Report {
     let rep = Report::new("C14", tier);
-    rep.set_rule("every list of n <= 4 (quick) / 5 (thorough) boxes drawn with repetition from an 11-box menu (cluster of shifted boxes, nested, exact duplicate, rotated, disjoint, two corner overlaps, two invalid) x score patterns (all None; every distinct permutation of a prefix of {.9,.5,.5,.1,.7}) x nms threshold {.05,.2,.3,.5,.7} x score threshold {None, below, inside, above}; plus every list of 2-3 boxes from a 5-box rotated cluster in which at least one box had its polygon generated (gen_vertices) before it was moved / turned in place; plus chain / ladder / grid families of k boxes for every k <= 40; plus an exact family: every list of 2 (thorough: 3) boxes from 60 axis-aligned boxes with dyadic corners and sizes x thresholds {1/8,1/4,1/2,3/4}, decided with zero margin (coverage exactly at the threshold must not suppress). Non-trivial = at least two valid boxes.");
+    rep.set_rule("every list of n <= 4 (quick) / 5 (thorough) boxes drawn with repetition from an 11-box menu (cluster of shifted boxes, nested, exact duplicate, rotated, disjoint, two corner overlaps, two invalid) x score patterns (all None; every distinct permutation of a prefix of {.9,.5,.5,.1,.7}) x nms threshold {.05,.2,.3,.5,.7} x score threshold {None, below, inside, above}; plus every list of 2-3 boxes from 7 elongated boxes that all carry the same non-zero angle (3 angles; offsets along and across the long side); plus every list of 2-3 boxes from a 5-box rotated cluster in which at least one box had its polygon generated (gen_vertices) before it was moved / turned in place; plus chain / ladder / grid families of k boxes for every k <= 40; plus an exact family: every list of 2 (thorough: 3) boxes from 60 axis-aligned boxes with dyadic corners and sizes x thresholds {1/8,1/4,1/2,3/4}, decided with zero margin (coverage exactly at the threshold must not suppress). Non-trivial = at least two valid boxes.");
     rep.assume("own coverage computation (engine/src/geom.rs); keep/drop decisions asserted outside a 1e-4 margin around the threshold");
     let m = menu();
     let nmax = tier.pick(4usize, 5usize);
@@ -305,6 +305,40 @@ pub fn run(tier: Tier) -> Report {
             lists += total as u64;
         }
         rep.extra("prepared_then_changed_lists", json!(lists));
+    }
+    // equally oriented boxes: elongated boxes that all carry the SAME non-zero angle (an oriented detector's
+    // output for parallel objects); centres offset along and across the long side
+    {
+        let mut lists = 0u64;
+        for ang in [0.4f32, std::f32::consts::FRAC_PI_2, 2.0] {
+            let (s, c) = (ang as f64).sin_cos();
+            // offsets (u along the width axis, v along the height axis) in the box frame; box 2 wide, 10 high
+            let offs: Vec<(f64, f64)> = vec![(0.0, 0.0), (0.0, 2.0), (0.0, 6.0), (1.0, 0.0), (3.0, 0.0), (1.0, 4.0), (0.5, 9.0)];
+            let sm: Vec<Universal2DBox> = offs.iter().map(|(u, v)| Universal2DBox::new((50.0 + u * c - v * s) as f32, (20.0 + u * s + v * c) as f32, Some(ang), 0.2, 10.0)).collect();
+            for n in 2..=3usize {
+                let total = sm.len().pow(n as u32);
+                par_for(total, 32, |code| {
+                    let mut k = code;
+                    let mut boxes = vec![];
+                    for _ in 0..n {
+                        boxes.push(sm[k % sm.len()].clone());
+                        k /= sm.len();
+                    }
+                    for scores in 0..2 {
+                        let dets: Vec<(Universal2DBox, Option<f32>)> = boxes.iter().enumerate().map(|(i, b)| (b.clone(), if scores == 0 { None } else { Some(0.9 - 0.2 * i as f32) })).collect();
+                        for &nt in &[0.2f32, 0.3, 0.5, 0.7] {
+                            evals.fetch_add(1, Ordering::Relaxed);
+                            nontrivial.fetch_add(1, Ordering::Relaxed);
+                            if let Err((key, what)) = judge(&dets, nt, None) {
+                                rep.violation(Violation { key: format!("{key}/equally-oriented-boxes"), what, replay: json!({"family":"equally-oriented","detections":dj(&dets),"nms_threshold":nt}) });
+                            }
+                        }
+                    }
+                });
+                lists += total as u64;
+            }
+        }
+        rep.extra("equally_oriented_lists", json!(lists));
     }
     // families for every k <= 40
     for k in 1..=40usize {
